@@ -185,6 +185,28 @@ Fixpoint strip_prefix (pre bs : list N) : option (list N) :=
 
 Definition digit_char (n : N) : N := (48 + n)%N.
 
+(* JSON insignificant whitespace that can occur inside a header line *)
+Definition is_ws (b : N) : bool := (b =? 32)%N || (b =? 9)%N || (b =? 13)%N.
+
+Fixpoint skip_ws (bs : list N) : list N :=
+  match bs with
+  | b :: t => if is_ws b then skip_ws t else bs
+  | [] => []
+  end.
+
+(* the members of the manifest object, and a serialisation style *)
+Inductive mfield := FK | FKw | FWfk | FCph | FNp.
+
+Record mstyle := mkMstyle {
+  ms_order : list mfield;   (* member order *)
+  ms_ws : list N;           (* whitespace put at every place JSON allows it *)
+  ms_esc : nat              (* escapes of the key name: 0 = Go's, 1 = minimal with \/, 2 = \u00XX *)
+}.
+
+(* Go's own style *)
+Definition go_order (m_k_empty : bool) : list mfield :=
+  if m_k_empty then [FKw; FWfk; FCph; FNp] else [FK; FKw; FWfk; FCph; FNp].
+
 Section Codec.
   Variable C : crypto.
 
@@ -213,29 +235,145 @@ Section Codec.
     opt_bind (json_unquote bs []) (fun '(s, r) =>
     opt_bind (b64d C s) (fun v => Some (v, r))).
 
-  (* The manifest language: exactly the objects [manifest_json] writes (plus "k":"" and the
-     alternative escapes inside strings).  json.Unmarshal accepts more (whitespace, any key
-     order, unknown and duplicate keys); documents outside this language are never given to
-     the model by the harness. *)
+  (* ---- README-conformant serialisations other than Go's ---- *)
+
+  (* The manifest "is a JSON object, compacted"; the README fixes neither the member order nor
+     the string escapes, and JSON allows insignificant whitespace.  [manifest_text sty m] is
+     the family of texts an independent implementation may write for [m]: members in the
+     order [ms_order] (the key-name member may be left out when the name is empty), the
+     whitespace [ms_ws] (spaces, tabs, carriage returns - never a line feed) at every place
+     JSON allows it, the key name escaped in one of three styles. *)
+  Definition json_escape_min (b : N) : list N :=
+    if (b =? 34)%N then [92; 34]%N
+    else if (b =? 92)%N then [92; 92]%N
+    else if (b =? 47)%N then [92; 47]%N                        (* solidus as \/ (PHP) *)
+    else if (b <? 32)%N then [92; 117; 48; 48; hex_digit (b / 16); hex_digit (b mod 16)]%N
+    else [b].                                                   (* & < > literally *)
+
+  Definition json_escape_u (b : N) : list N :=
+    if (b <? 128)%N then [92; 117; 48; 48; hex_digit (b / 16); hex_digit (b mod 16)]%N
+    else [b].
+
+  Definition json_string_sty (esc : nat) (s : list N) : list N :=
+    [34%N] ++ flat_map (match esc with
+                        | O => json_escape_byte
+                        | Datatypes.S O => json_escape_min
+                        | _ => json_escape_u
+                        end) s ++ [34%N].
+
+  Definition render_member (sty : mstyle) (m : manifest) (f : mfield) : list N :=
+    let w := ms_ws sty in
+    match f with
+    | FK => str """k""" ++ w ++ str ":" ++ w ++ json_string_sty (ms_esc sty) (m_k m)
+    | FKw => str """kw""" ++ w ++ str ":" ++ w ++ [digit_char (kwalg_id (m_kw m))]
+    | FWfk => str """wfk""" ++ w ++ str ":" ++ w ++ str """" ++ b64e C (m_wfk m) ++ str """"
+    | FCph => str """cph""" ++ w ++ str ":" ++ w ++ [digit_char (cipher_id (m_cph m))]
+    | FNp => str """np""" ++ w ++ str ":" ++ w ++ str """" ++ b64e C (m_np m) ++ str """"
+    end.
+
+  Fixpoint render_members (sty : mstyle) (m : manifest) (fs : list mfield) : list N :=
+    match fs with
+    | [] => []
+    | [f] => render_member sty m f
+    | f :: t => render_member sty m f ++ ms_ws sty ++ str "," ++ ms_ws sty ++ render_members sty m t
+    end.
+
+  Definition manifest_text (sty : mstyle) (m : manifest) : list N :=
+    ms_ws sty ++ str "{" ++ ms_ws sty ++ render_members sty m (ms_order sty) ++ ms_ws sty
+    ++ str "}" ++ ms_ws sty.
+
+  (* ---- the parser ---- *)
+
+  (* The manifest language of the model: one JSON object whose members are, in ANY order, the
+     five members of the README (a member given twice: the last one counts, as in Go), with
+     insignificant whitespace (space, tab, carriage return) wherever JSON allows it and any
+     JSON string escapes in names and values below U+0080.  json.Unmarshal accepts still more
+     (unknown members, null, case-insensitive names); documents outside this language are
+     never given to the model by the harness. *)
+  Record pman := mkPman {
+    pm_k : list N; pm_kw : option kwalg; pm_wfk : option (list N);
+    pm_cph : option cipher; pm_np : option (list N) }.
+
+  Definition pman0 : pman := mkPman [] None None None None.
+
+  (* the value of the member named [key]; the input is positioned at the value *)
+  Definition parse_value (key : list N) (st : pman) (bs : list N) : option (pman * list N) :=
+    if eqb_listN key (str "k") then
+      match bs with
+      | q :: r => if (q =? 34)%N then
+                    opt_bind (json_unquote r []) (fun '(s, r') =>
+                    Some (mkPman s (pm_kw st) (pm_wfk st) (pm_cph st) (pm_np st), r'))
+                  else None
+      | [] => None
+      end
+    else if eqb_listN key (str "kw") then
+      opt_bind (take_digit bs) (fun '(d, r) =>
+      opt_bind (kwalg_of_id d) (fun kw =>
+      Some (mkPman (pm_k st) (Some kw) (pm_wfk st) (pm_cph st) (pm_np st), r)))
+    else if eqb_listN key (str "wfk") then
+      match bs with
+      | q :: r => if (q =? 34)%N then
+                    opt_bind (take_b64 r) (fun '(v, r') =>
+                    Some (mkPman (pm_k st) (pm_kw st) (Some v) (pm_cph st) (pm_np st), r'))
+                  else None
+      | [] => None
+      end
+    else if eqb_listN key (str "cph") then
+      opt_bind (take_digit bs) (fun '(d, r) =>
+      opt_bind (cipher_of_id d) (fun c =>
+      Some (mkPman (pm_k st) (pm_kw st) (pm_wfk st) (Some c) (pm_np st), r)))
+    else if eqb_listN key (str "np") then
+      match bs with
+      | q :: r => if (q =? 34)%N then
+                    opt_bind (take_b64 r) (fun '(v, r') =>
+                    Some (mkPman (pm_k st) (pm_kw st) (pm_wfk st) (pm_cph st) (Some v), r'))
+                  else None
+      | [] => None
+      end
+    else None.
+
+  (* members up to and including the closing brace; the input is positioned after the opening
+     brace or after a comma *)
+  Fixpoint parse_members (fuel : nat) (st : pman) (bs : list N) : option (pman * list N) :=
+    match fuel with
+    | O => None
+    | Datatypes.S f =>
+        match skip_ws bs with
+        | q :: r =>
+            if (q =? 34)%N then
+              opt_bind (json_unquote r []) (fun '(key, r1) =>
+              match skip_ws r1 with
+              | c :: r2 =>
+                  if (c =? 58)%N then
+                    opt_bind (parse_value key st (skip_ws r2)) (fun '(st', r3) =>
+                    match skip_ws r3 with
+                    | d :: r4 => if (d =? 44)%N then parse_members f st' r4
+                                 else if (d =? 125)%N then Some (st', r4)
+                                 else None
+                    | [] => None
+                    end)
+                  else None
+              | [] => None
+              end)
+            else None
+        | [] => None
+        end
+    end.
+
   Definition parse_manifest (bs : list N) : option manifest :=
-    opt_bind (strip_prefix (str "{") bs) (fun r0 =>
-    opt_bind (match strip_prefix (str """k"":""") r0 with
-              | Some r => opt_bind (json_unquote r []) (fun '(k, r') =>
-                          opt_bind (strip_prefix (str ",") r') (fun r'' => Some (k, r'')))
-              | None => Some ([], r0)
-              end) (fun '(k, r1) =>
-    opt_bind (strip_prefix (str """kw"":") r1) (fun r2 =>
-    opt_bind (take_digit r2) (fun '(kwid, r3) =>
-    opt_bind (kwalg_of_id kwid) (fun kw =>
-    opt_bind (strip_prefix (str ",""wfk"":""") r3) (fun r4 =>
-    opt_bind (take_b64 r4) (fun '(wfk, r5) =>
-    opt_bind (strip_prefix (str ",""cph"":") r5) (fun r6 =>
-    opt_bind (take_digit r6) (fun '(cid, r7) =>
-    opt_bind (cipher_of_id cid) (fun cph =>
-    opt_bind (strip_prefix (str ",""np"":""") r7) (fun r8 =>
-    opt_bind (take_b64 r8) (fun '(np, r9) =>
-    opt_bind (strip_prefix (str "}") r9) (fun r10 =>
-    if is_nil r10 then Some (mkManifest k kw wfk cph np) else None))))))))))))).
+    match skip_ws bs with
+    | o :: r =>
+        if (o =? 123)%N then
+          opt_bind (parse_members (List.length r) pman0 r) (fun '(st, rest) =>
+          if is_nil (skip_ws rest) then
+            match pm_kw st, pm_wfk st, pm_cph st, pm_np st with
+            | Some kw, Some wfk, Some cph, Some np => Some (mkManifest (pm_k st) kw wfk cph np)
+            | _, _, _, _ => None
+            end
+          else None)
+        else None
+    | [] => None
+    end.
 
   (* Manifest.Validate: wrapped key not empty, nonce prefix exactly 7 bytes (the ids were
      already checked by the parser). *)
